@@ -274,6 +274,7 @@ var _ = eio.ProtocolVersion
 // ---------------------------------------------------------------- wire tap: packets in the order the decoder finishes them
 
 type tapRecord struct {
+	hdr     []byte // the packet's header frame (truncated)
 	conn    int // which parser instance (one per connection)
 	typ     parser.PacketType
 	nsp     string
@@ -315,14 +316,21 @@ type tapParser struct {
 	conn    int
 	inner   parser.Parser
 	nframes int
+	hdr     []byte
 }
 
 func (p *tapParser) Encode(h *parser.PacketHeader, v any) ([][]byte, error) { return p.inner.Encode(h, v) }
 func (p *tapParser) Reset()                                                { p.inner.Reset(); p.nframes = 0 }
 func (p *tapParser) Add(data []byte, finish parser.Finish) error {
 	p.nframes++
+	if p.nframes == 1 {
+		p.hdr = append([]byte(nil), data...)
+		if len(p.hdr) > 160 {
+			p.hdr = p.hdr[:160]
+		}
+	}
 	return p.inner.Add(data, func(h *parser.PacketHeader, name string, decode parser.Decode) {
-		rec := tapRecord{conn: p.conn, typ: h.Type, nsp: h.Namespace, event: name, id: "-", nframes: p.nframes}
+		rec := tapRecord{hdr: p.hdr, conn: p.conn, typ: h.Type, nsp: h.Namespace, event: name, id: "-", nframes: p.nframes}
 		p.nframes = 0
 		if h.ID != nil {
 			rec.id = strconv.FormatUint(*h.ID, 10)
